@@ -86,4 +86,27 @@ pub mod abi {
         fn j(&self, x: u32) -> Pin<Box<dyn Future<Output = VerArg>>>;
         fn k(&self, f: Box<dyn Fn(u32) -> VerArg>) -> u32;
     }
+
+    // marker supertraits, in both orders, and a closure argument with both marker bounds: the generated definitions must record them
+    #[savefile_abi_exportable(version = 0)]
+    pub trait BoundsSyncSend: Sync + Send {
+        fn get(&self) -> u32;
+    }
+    #[savefile_abi_exportable(version = 0)]
+    pub trait BoundsSendSync: Send + Sync {
+        fn get(&self) -> u32;
+    }
+    #[savefile_abi_exportable(version = 0)]
+    pub trait BoundsSendOnly: Send {
+        fn get(&self) -> u32;
+    }
+    #[savefile_abi_exportable(version = 0)]
+    pub trait BoundsSyncOnly: Sync {
+        fn get(&self) -> u32;
+    }
+    #[savefile_abi_exportable(version = 0)]
+    pub trait BoundsArgs {
+        fn run(&self, f: Box<dyn Fn(u32) -> u32 + Send + Sync>) -> u32;
+        fn run_send(&self, f: Box<dyn Fn(u32) -> u32 + Send>) -> u32;
+    }
 }
